@@ -6,10 +6,12 @@ import (
 	"encoding/asn1"
 	"fmt"
 	"path/filepath"
+	"sort"
 	"strings"
 	"time"
 
 	"github.com/zmap/zlint/v3/lint"
+	"github.com/zmap/zlint/v3/util"
 )
 
 func init() {
@@ -296,11 +298,12 @@ func subC20(out string, seed uint64, tier string, arg string) {
 	aiaURLs := []string{"http://ocsp.example.com", "http://ocsp.example.com:8080/x", "http://intranet/ocsp", "http://intranet:80/", "http://192.0.2.1/", "http://192.0.2.1:8080/",
 		"http://[2001:db8::1]/", "http://[2001:db8::1]:80/", "http://10.0.0.1:80", "ldap://dir.example.com/cn=x", "http://%zz", "", "http://example.notatld/", "HTTP://EXAMPLE.COM/",
 		"http://user@host.example.com/", "//noscheme.example.com/", "mailto:x@example.com", "http://example.com./", "http://localhost:8080/", "http://[::1]/", "http://256.1.1.1/", "http://1.2.3/"}
+	aiaNB := time.Date(2024, 3, 1, 0, 0, 0, 0, time.UTC)
 	aiaCert := func(ocsp, ca []string) {
 		der, err := BuildCert(CertSpec{Subject: pkixName("Alice"), Emails: []string{"alice@example.com"}, DNS: []string{"aia.example.com"},
 			EKUs:     []stdx509.ExtKeyUsage{stdx509.ExtKeyUsageServerAuth, stdx509.ExtKeyUsageEmailProtection},
 			Policies: []asn1.ObjectIdentifier{{2, 23, 140, 1, 5, 1, 2}}, OCSP: ocsp, CAIssuers: ca,
-			NotBefore: time.Date(2024, 3, 1, 0, 0, 0, 0, time.UTC)})
+			NotBefore: aiaNB})
 		if err != nil {
 			rep.count("kit-build-error:aia")
 			return
@@ -318,6 +321,41 @@ func subC20(out string, seed uint64, tier string, arg string) {
 	}
 	for i := 0; i < nl; i++ {
 		aiaCert([]string{aiaURLs[rng.Intn(len(aiaURLs))], aiaURLs[rng.Intn(len(aiaURLs))]}, []string{aiaURLs[rng.Intn(len(aiaURLs))]})
+	}
+	// hosts under top-level domains whose standing differs between the instants a rule might ask about (issuance, today): removed
+	// from the root zone before or after these certificates' notBefore, delegated only after it — both copies ask the same question
+	{
+		tm := util.VerifTLDMap()
+		var removedBefore, removedAfter, delegatedAfter []string
+		for k, p := range tm {
+			d, derr := time.Parse("2006-01-02", p.DelegationDate)
+			if derr != nil {
+				continue
+			}
+			if p.RemovalDate != "" {
+				if r, rerr := time.Parse("2006-01-02", p.RemovalDate); rerr == nil {
+					if r.Before(aiaNB) {
+						removedBefore = append(removedBefore, k)
+					} else if d.Before(aiaNB) {
+						removedAfter = append(removedAfter, k)
+					}
+				}
+			} else if d.After(aiaNB) {
+				delegatedAfter = append(delegatedAfter, k)
+			}
+		}
+		for _, group := range [][]string{removedBefore, removedAfter, delegatedAfter} {
+			sort.Strings(group)
+			for i, k := range group {
+				if i >= 6 {
+					break
+				}
+				u := "http://ocsp.example." + k + "/"
+				aiaCert([]string{u}, nil)
+				aiaCert(nil, []string{u})
+			}
+		}
+		rep.count(fmt.Sprintf("aia-tld-standing removed-before=%d removed-after=%d delegated-after=%d", len(removedBefore), len(removedAfter), len(delegatedAfter)))
 	}
 	// ---- DSA and AIA pairs over the corpus (and mutants): whenever both ran
 	objs := loadObjects()
